@@ -106,8 +106,46 @@ def handle (op opts payload : String) : String :=
   else "bad-request"
 end X
 
+/-! ### SDF: `x<title>;x:y:z:Z,…;i:j:t,…` -/
+namespace S
+open Iodata.Fmt.Sdf
+
+def decAtom (s : String) : Atom :=
+  match s.splitOn ":" with
+  | [x, y, z, zn] => ⟨decFx x, decFx y, decFx z, decNat zn⟩
+  | _ => ⟨⟨false, 0⟩, ⟨false, 0⟩, ⟨false, 0⟩, 0⟩
+def encAtom (a : Atom) : String := ":".intercalate [encFx a.x, encFx a.y, encFx a.z, toString a.zn]
+def decBond (s : String) : Bond :=
+  match s.splitOn ":" with
+  | [i, j, t] => ⟨decNat i, decNat j, decNat t⟩
+  | _ => ⟨0, 0, 0⟩
+def encBond (b : Bond) : String := s!"{b.i}:{b.j}:{b.t}"
+
+def decObj (s : String) : Obj :=
+  match s.splitOn ";" with
+  | [t, ats, bs] => ⟨decStr t, decList "," decAtom ats, decList "," decBond bs⟩
+  | _ => ⟨[], [], []⟩
+def encObj (o : Obj) : String :=
+  encStr o.title ++ ";" ++ encList "," encAtom o.atoms ++ ";" ++ encList "," encBond o.bonds
+
+def handle (op _opts payload : String) : String :=
+  let L := Gen.Layouts.sdfL
+  let T := Gen.Layouts.tables
+  if op == "dump" then
+    match dumpE T L (decObj payload) with
+    | .ok ls => okHex ls
+    | .error _ => "err DumpError"
+  else if op == "load" then
+    match load T L (linesOfHex payload) with
+    | .ok o => "ok " ++ encObj o
+    | .error _ => "err LoadError"
+  else if op == "spec" then okHex (dump T specV2000 (decObj payload))
+  else "bad-request"
+end S
+
 def handle : List String → Option String
   | ["fmt", op, "xyz", opts, payload] => some (X.handle op opts payload)
+  | ["fmt", op, "sdf", opts, payload] => some (S.handle op opts payload)
   | _ => none
 
 end Iodata.Drv.Fmt
